@@ -252,3 +252,67 @@ def successor(case, res):
         S.shutdown()
         return S.ops[:12]
     sim_case(case, res, body)
+
+
+@scenario("deadline-cancelfault")
+def cancelfault(case, res):
+    """the system call that disarms a routed request's deadline timer fails (when the owner's reply arrives, when the caller or the
+    owner leaves): the outcome is still exactly one answer - the owner's payload if it replied before the deadline - nothing more
+    arrives when the deadline passes, and everything is released in the end"""
+    import errno as E
+    prm = case.get("params", {})
+
+    def body(S, rng):
+        own = S.connect("own", rng.choice(["raw", "uds", "ws"]))
+        if own.transport == "ws":
+            S.handshake(own)
+        S.request(own, "add", {"path": "r/s", "value": 1, "timeout": 5})
+        S.request(own, "add", {"path": "r/m", "timeout": 7})
+        S.settle()
+        S.inject_active = True
+        for rnd in range(prm.get("rounds", 5)):
+            cal = S.connect("cal%d" % rnd, rng.choice(["raw", "uds", "ws"]))
+            if cal.transport == "ws":
+                S.handshake(cal)
+            k = rng.choice([1, 1, 2])
+            ps = []
+            for i in range(k):
+                if rng.random() < 0.6:
+                    ps.append(S.request(cal, "set", {"path": "r/s", "value": S.next_val(cal)}, idv=AUTO if rng.random() < 0.85 else None))
+                else:
+                    ps.append(S.request(cal, "call", {"path": "r/m", "args": [S.next_val(cal)]}))
+            S.settle()
+            ps = [p for p in ps if p.state == "forwarded"]
+            if not ps:
+                break
+            what = rng.choice(["reply", "reply", "reply", "caller-eof", "caller-rst", "owner-eof"])
+            # the NEXT timerfd_settime call (the disarming one) fails; sometimes the one after it
+            S.sim.inject("timerfd_settime", rng.choice([1, 1, 1, 2]), rng.choice([E.EINVAL, E.EBADF, E.ENOMEM]))
+            S.sig("cancel-fault", what, len(ps))
+            S.stats["cancel_faults"] += 1
+            if what == "reply":
+                for p in ps:
+                    S.reply(own, p, rng.choice(["result", "error"]))
+                S.settle()
+            elif what.startswith("caller"):
+                S.end(cal, what[7:])
+                S.settle()
+            else:
+                S.end(own, "eof")
+                S.settle()
+            # the deadlines pass: nothing may follow
+            S.advance(8 * 10**9)
+            S.settle()
+            S.sim.inject("timerfd_settime", 0, 0)
+            if what == "owner-eof":
+                break
+            if not cal.closed and not cal.ended:
+                S.request(cal, "info")
+                S.settle()
+                S.end(cal, "eof")
+                S.settle()
+        st = S.close_all()
+        S.check_idle_baseline(st)
+        S.shutdown()
+        return S.ops[:12]
+    sim_case(case, res, body)
